@@ -14,7 +14,7 @@ from val import Stream
 ID = 'C03'
 COQ_PROP = 'C03'
 LEVEL = 'proof'
-TRANSLATE = ['sql', 'disk']
+TRANSLATE = ['sql', 'disk', 'fanout']
 TRUSTED = [
     'coq/base/SqlBase.v + Val.v (relational reading of the SQL subset, SQLite value order) and the SQL-to-combinator compiler; the hand-written control skeleton of coq/model/Cache.v, pinned to core.py by the translator templates and compared with the table after every call',
     'reference dictionary of the monitor (harness/props/c03.py RefDict), written from the property text',
